@@ -5,6 +5,7 @@ import (
 	"strconv"
 	"strings"
 	"testing"
+	"time"
 
 	"pgregory.net/rapid"
 
@@ -60,11 +61,39 @@ func TestC04(t *testing.T) {
 		var fp strings.Builder
 		bigReadBack, suffixPair := false, false
 		multiChunkWritten := map[string]bool{}
+		// Keys whose backend entries were partly removed by a generated "damage"
+		// step (backend eviction).  What a damaged key itself returns is C05's
+		// business; here it only must not disturb anything else, and a
+		// successful set repairs it.
+		damaged := map[string]bool{}
+		damagedEver := false
 		fail := func(i int, c wire.Cmd, msg string) {
 			t.Fatalf("C04 step %d %s: %s\nsequence: %s", i, c, msg, strings.Join(cmdsString(cmds), " | "))
 		}
 		for i := 0; i < n; i++ {
 			now := nowUnix()
+			if rapid.IntRange(0, 9).Draw(t, "damage") == 0 {
+				k := rapid.SampledFrom(keys).Draw(t, "damageKey")
+				if it := model.Live(k, now); it != nil {
+					nchunks := (len(it.Value) + chunkPayload(len(k)) - 1) / chunkPayload(len(k))
+					mask := rapid.IntRange(1, 1<<uint(nchunks+1)-1).Draw(t, "damageMask")
+					var names []string
+					for b := 0; b <= nchunks && b < 20; b++ {
+						if mask&(1<<uint(b)) != 0 {
+							if b == 0 {
+								names = append(names, k+"-meta")
+							} else {
+								names = append(names, k+"-"+strconv.Itoa(b-1))
+							}
+						}
+					}
+					if f.Evict(names...) > 0 {
+						damaged[k] = true
+						damagedEver = true
+						cmds = append(cmds, wire.Cmd{Kind: wire.RawBytes, Raw: []byte(fmt.Sprintf("[backend loses %v]", names))})
+					}
+				}
+			}
 			kind := rapid.SampledFrom([]wire.Kind{wire.Set, wire.Set, wire.Add, wire.Replace, wire.Append, wire.Prepend, wire.Delete, wire.Touch, wire.Get, wire.Get, wire.Gat}).Draw(t, "kind")
 			c := wire.Cmd{Kind: kind}
 			spare := rapid.SampledFrom([]int{0, 0, 1, 4, 5, 6, 8, 16}).Draw(t, "spareCap")
@@ -92,11 +121,50 @@ func TestC04(t *testing.T) {
 			if c.Kind == wire.Delete {
 				before = model.Live(c.Key, now)
 			}
-			exp := model.Apply(c, now)
+			onDamaged := damaged[c.Key]
 			logFrom := f.LogLen()
-			got, _ := execHandler(h, c, spare)
-			if msg := compareH(c, exp, got); msg != "" {
-				fail(i, c, msg)
+			var exp refmodel.Expect
+			if onDamaged {
+				// result of a command on a damaged key is not judged (it must return, though);
+				// a successful set writes the key afresh
+				done := make(chan hres, 1)
+				go func() { r, _ := execHandler(h, c, spare); done <- r }()
+				var got hres
+				select {
+				case got = <-done:
+				case <-time.After(20 * time.Second):
+					fail(i, c, "command on a key with lost backend entries did not return within 20s")
+				}
+				if c.Kind == wire.Set && got.Class == refmodel.OK {
+					model.Apply(c, now)
+					delete(damaged, c.Key)
+				} else if c.Kind != wire.Get && c.Kind != wire.Gat && c.Kind != wire.Touch {
+					// any other write may or may not have taken effect: forget the key until the next set
+					delete(model.M, c.Key)
+					damaged[c.Key] = true
+				}
+				exp = refmodel.Expect{}
+			} else {
+				exp = model.Apply(c, now)
+				done := make(chan hres, 1)
+				go func() { r, _ := execHandler(h, c, spare); done <- r }()
+				var got hres
+				select {
+				case got = <-done:
+				case <-time.After(10 * time.Second):
+					fail(i, c, "command did not return within 10s")
+				}
+				if c.Kind == wire.Get {
+					// positions of damaged keys are not judged
+					for j, k := range c.Keys {
+						if damaged[k] {
+							exp.Hits[j], got.Hits[j] = nil, nil
+						}
+					}
+				}
+				if msg := compareH(c, exp, got); msg != "" {
+					fail(i, c, msg)
+				}
 			}
 			// requests issued during the command name only entries derived from its key(s)
 			for _, r := range f.Log()[logFrom:] {
@@ -117,10 +185,23 @@ func TestC04(t *testing.T) {
 				fail(i, c, "malformed backend request: "+bad[0])
 			}
 			live := f.Live()
-			if msg := chunkedBackendCheck(live, model, keys, nowUnix()); msg != "" {
-				fail(i, c, "backend image: "+msg)
+			if len(damaged) == 0 && !damagedEver {
+				if msg := chunkedBackendCheck(live, model, keys, nowUnix()); msg != "" {
+					fail(i, c, "backend image: "+msg)
+				}
+			} else {
+				// with damage in play only the healthy keys' images are judged
+				var healthy []string
+				for _, k := range keys {
+					if !damaged[k] {
+						healthy = append(healthy, k)
+					}
+				}
+				if msg := chunkedBackendCheckKeys(live, model, healthy, keys, nowUnix()); msg != "" {
+					fail(i, c, "backend image (healthy keys): "+msg)
+				}
 			}
-			if c.Kind == wire.Delete && before != nil {
+			if c.Kind == wire.Delete && before != nil && !onDamaged {
 				p := chunkPayload(len(c.Key))
 				for j := 0; j < (len(before.Value)+p-1)/p; j++ {
 					if _, ok := live[c.Key+"-"+strconv.Itoa(j)]; ok {
@@ -151,6 +232,9 @@ func TestC04(t *testing.T) {
 		// final read of every key
 		now := nowUnix()
 		for _, k := range keys {
+			if damaged[k] {
+				continue
+			}
 			c := wire.Cmd{Kind: wire.Get, Keys: []string{k}}
 			exp := model.Apply(c, now)
 			got, _ := execHandler(h, c, 0)
@@ -165,6 +249,9 @@ func TestC04(t *testing.T) {
 		}
 		if suffixPair {
 			cl = append(cl, "suffix-confusable-keys-both-live")
+		}
+		if damagedEver {
+			cl = append(cl, "backend-entry-loss-during-sequence")
 		}
 		rec.Case(nt, fp.String(), cl...)
 		if rec.WantSample(nt) {
